@@ -504,11 +504,10 @@ def largestComponent (s : HG) : Option (List PyId) :=
     | some b => if c.length > b.length then some c else some b) none
 
 def lccInPlace (s : HG) : HG × Outcome :=
-  match largestComponent s with
-  | none => (s, .err .valueError)
-  | some c =>
-    let r := guardF s (removeNodesFrom s (s.nodes.filter (· ∉ c)) false true)
-    (r.1, if r.2.isErr then r.2 else .ok)
+  -- `max(connected_components(H), key=len, default=set())`: the null network has no component
+  let c := (largestComponent s).getD []
+  let r := guardF s (removeNodesFrom s (s.nodes.filter (· ∉ c)) false true)
+  (r.1, if r.2.isErr then r.2 else .ok)
 
 /-! ### convert_labels_to_integers(in_place=True) -/
 
